@@ -39,6 +39,10 @@ PAYLOADS = [
     "__KEY__", "@@BODY@@", "${salt}", "<%= key %>", "\\g<1>", "\\1", "$1", "&", "\\0",
     "name='f'", "name='uid'", "f", "uid", "1", "(1, 2)", "Identifier(name='f')", "0", "z",
     "it's", 'say "hi"', "plain", "\\n", "\\t'", "${x}", "`x`", "'+'", "\\'", 'a" + __pyab_sentinel__() + "b',
+    # strings that look like data of some other type (versions, dates, addresses, numbers in other notations, patterns, formats)
+    "2.10.0", "2.5", "10.0", "1.2.3.4", "v1.2", "2024-01-31", "12:30", "10.0.0.1", "a@b.co", "/usr/bin", "1,000", "50%", "$5", "#fff", "<b>", "&amp;",
+    "null", "true", "false", "undefined", "NULL", "\\d+", ".*", "^a$", "[a-z]", "%Y-%m-%d", "{:>4}", "0b1", "0o7", "1j", "1L", "1.", ".5", "+1", "-1",
+    "1 2", "\u0661\u0662", "1e-3", "1/2", "3+4", "a.b", "a.b.c", "os.sep", "a[0]", "a(1)", "lambda: 1", "x if y else z", "not a", "a and b", "a in b",
 ]
 
 _calls = {"n": 0}
@@ -178,10 +182,15 @@ def fixed_cases():
     for p in GOOD_PAYLOADS:
         q = "'" if '"' in p else '"'
         body = M.if_([(M.cmp_(M.ident("f"), "==", M.lit_str(p, q)), M.ret([(M.lit_str(p + "#a", q), "1")])),
-                      (M.cmp_(M.ident("f"), "in", M.tup([M.lit_str(p, q), M.lit_str("z")])), M.ret([(M.lit_str("b"), "1")]))],
+                      (M.cmp_(M.ident("f"), "in", M.tup([M.lit_str(p, q), M.lit_str("z")])), M.ret([(M.lit_str("b"), "1")])),
+                      # ordering and substring tests, literal on either side
+                      (M.cmp_(M.ident("g"), ">=", M.lit_str(p, q)), M.ret([(M.lit_str("ge"), "1")])),
+                      (M.cmp_(M.lit_str(p, q), "<", M.ident("h")), M.ret([(M.lit_str("lt"), "1")])),
+                      (M.and_(M.cmp_(M.ident("g"), "in", M.lit_str(p, q)), M.not_(M.cmp_(M.ident("h"), "<=", M.lit_str(p, q)))), M.ret([(M.lit_str("sub"), "1")]))],
                      M.ret([(M.lit_str("c"), "1")]))
         yield {"prog": M.program("e", body, salt=p, splitters=["uid"], salt_q=q),
-               "inputs": [M.enc_inputs({"uid": "u1", "f": p}), M.enc_inputs({"uid": "u2", "f": "z"}), M.enc_inputs({"uid": "u3", "f": 0})],
+               "inputs": [M.enc_inputs({"uid": "u1", "f": p, "g": "", "h": ""}), M.enc_inputs({"uid": "u2", "f": "z", "g": p, "h": p}),
+                          M.enc_inputs({"uid": "u3", "f": 0, "g": "harmless", "h": "2.9.1"}), M.enc_inputs({"uid": "u3", "f": 0, "g": "", "h": "~"})],
                "noise": common.NOISE_TEXTS[3 + len(p) % 3] if len(p) % 2 else None}
 
 
